@@ -1434,9 +1434,7 @@ def complex_cp_run(w, fs, chk=None, record=True):
                     elif v[0] == "norm":
                         z = complex(res[1])
                         if not (abs(z * z - n2) <= 1e-9 * (1 + n2)):
-                            msg = (f"cp_norm of a complex CP tensor = {z!r}, but the reconstruction has norm {n2 ** 0.5!r} "
-                                   f"(the Gram-Hadamard product takes w_r * w_s instead of w_r * conj(w_s))" if cw else
-                                   f"cp_norm of a complex CP tensor = {z!r}, but the reconstruction has norm {n2 ** 0.5!r}")
+                            msg = f"cp_norm of a complex CP tensor = {z!r}, but the reconstruction has norm {n2 ** 0.5!r}"
                     if msg:
                         msgs.append((v, msg, be, kind))
                         if record and chk is not None:
@@ -1578,13 +1576,8 @@ def complex_family_cases(chk, start_id, rng, tier):
     return out
 
 
-def clf_cp_norm_complex_weights(f):
-    return bool(f["inputs"].get("complex_weights")) and f["inputs"].get("view") == "norm" and f["inputs"].get("kind") == "cp (complex)"
-
-
-CLASSIFIERS["cp_norm_complex_weights"] = clf_cp_norm_complex_weights
-
-
+# (round 7: cp_norm did not conjugate the second weight vector - repaired in /repo by 20cafdc; the predicate stays, any such output is a
+# VIOLATION now; the witness runs first in complex_cp_cases and is the Example C03_before_20cafdc_cp_norm_complex_weights)
 def run(chk):
     rng = random.Random(chk.seed)
     chk.build_proofs()
@@ -1653,7 +1646,7 @@ def run(chk):
                        "weights {None, ones, signed non-unit} + masked; Tucker/TT/TR: all shapes of order 1-2 + sampled order 3-4 with random ranks in {1,2,3} incl. rank > dim, skip_factor, transpose_factors; "
                        "TT-matrix with 1-3 cores; PARAFAC2 with uneven slices; plus a malformed stream (mismatched ranks, wrong boundary ranks, open rings, wrong ndim, non-orthonormal and dyadic sub-orthonormal projections (validator through the model at Q), wrong counts, 1-D factors, a non-square PARAFAC2 B that must be rejected late, "
                        "operands np.einsum can broadcast: size-1 core modes / one-column factors / inner rank r against 1 / open boundary ranks, a TT with first boundary rank r0 and fitting rank products) observed through EVERY view under BOTH backends: Ok-with-the-same-value / Err exactly as the model says, and any reconstruction returned for a set the validator rejects is a finding; "
-                       "round 7: order-1 CP tensors with weights=None and a 0/1 (bool / int / float) or general integer mask on every run; tucker_to_tensor(modes=...) with repeated modes; PARAFAC2 with exactly one non-orthonormal projection at the first / middle / last position through every view; 0-order inputs (Python numbers) through the cp / tt functions; complex CP tensors with Gaussian-integer weights and factors (all views exactly, cp_norm against the model of the code as it is); "
+                       "round 7: order-1 CP tensors with weights=None and a 0/1 (bool / int / float) or general integer mask on every run; tucker_to_tensor(modes=...) with repeated modes; PARAFAC2 with exactly one non-orthonormal projection at the first / middle / last position through every view; 0-order inputs (Python numbers) through the cp / tt functions; complex CP tensors with Gaussian-integer weights and factors (all views exactly, cp_norm exactly as its square); "
                        "evaluations = implementation calls; a case is non-trivial if some factor has more than one entry; distinct key = (family, factor shapes, weights kind, options, malformation)")
     for b in broken:
         chk.broken.append({"what": "correspondence corr:C03 shard not evaluated", "detail": b})
